@@ -26,14 +26,14 @@ fn slug(s: &str) -> String {
 fn convr<T, E>(r: TransactionClosureResult<T, E>, f: impl Fn(&E) -> String) -> TransactionClosureResult<T, String> {
     r.map_err(|e| match e {
         TransactionError::Abort(e) => TransactionError::Abort(f(&e)),
-        TransactionError::Stm(StmError::Retry) => TransactionError::Abort("retry".to_string()),
+        TransactionError::Stm(StmError::Retry) if !crate::attrs::real_retry() => TransactionError::Abort("retry".to_string()),
         TransactionError::Stm(s) => TransactionError::Stm(s),
     })
 }
 
 fn stmr<T>(r: honeycomb_core::stm::StmClosureResult<T>) -> TransactionClosureResult<T, String> {
     r.map_err(|e| match e {
-        StmError::Retry => TransactionError::Abort("retry".to_string()),
+        StmError::Retry if !crate::attrs::real_retry() => TransactionError::Abort("retry".to_string()),
         s => TransactionError::Stm(s),
     })
 }
